@@ -11,7 +11,8 @@ PROP = "C10"
 # second oracle in the same Eval: the reference interpretation (M_FramesRef.ref_extract) vs the implementation
 KINDS = {"main": dict(G.KIND_EXTRACT, imports="From SS Require Import Base M_Frames M_FramesRef.",
                       mismatch="mismatches2")}
-RULE = ("rank-ordered (acyclic) random unwrap/elaborate tables over 5 objects x 5 frames with result alphabets "
+RULE = ("rank-ordered (acyclic) random unwrap/elaborate tables over 5 objects x 5 frames (sparse) and densely connected nested tables "
+        "rooted at object 0 over 3-4 objects x 5-7 frames (frames at several depths; hooks that prune/replace/insert frames that edit again), result alphabets "
         "{None, item, tuple, list, iterator(+raise), raise, empty} x {None, PRUNE, replace, insert-before, single item, raise}, "
         "plus linear chains around the 100-step guard and a self-loop; thorough adds the exhaustive small scope "
         "(3 objects x 2 frames). distinct = distinct descriptors; non-trivial = model run yields >= 2 frames, a leaf or an error")
@@ -59,6 +60,27 @@ def specials():
     out.append(dict(base, root=["F", 0], unwrap={}, elab={"0": ["seq", [["N"], ["I", ["F", 1]]], False]}))
     out.append(dict(base, root=["O", 0], unwrap={"0": ["seq", [["F", 0], ["O", 1], ["F", 1]], "tuple"]},
                     elab={"0": ["one", ["I", ["O", 1]], False]}))
+    # insert before a next_inner that is further OUT than the inserting frame (keeps its depth: its PRUNE
+    # still reaches its callee F3) ...
+    out.append(dict(base, root=["O", 0], unwrap={"0": ["seq", [["O", 1], ["F", 2], ["F", 3]], "tuple"], "1": ["seq", [["F", 0]], "list"]},
+                    elab={"0": ["seq", [["I", ["F", 1]], ["N"]], False], "2": ["seq", [], False]}))
+    # ... and before one nested more deeply (brought out to the inserter's depth: a PRUNE from within the
+    # inserted object's frames must not remove it)
+    out.append(dict(base, root=["O", 0], unwrap={"0": ["seq", [["F", 0], ["O", 1]], "tuple"], "1": ["seq", [["F", 3], ["F", 4]], "list"],
+                                                 "2": ["seq", [["F", 1], ["F", 2]], "tuple"]},
+                    elab={"0": ["seq", [["I", ["O", 2]], ["N"]], False], "2": ["seq", [], False]}))
+    # an inserted frame's own PRUNE removes next_inner at the same depth; replacement items sit at the frame's depth
+    out.append(dict(base, root=["O", 0], unwrap={"0": ["seq", [["F", 0], ["F", 2]], "tuple"]},
+                    elab={"0": ["seq", [["I", ["F", 1]], ["N"]], False], "1": ["seq", [], False]}))
+    out.append(dict(base, root=["O", 0], unwrap={"0": ["seq", [["F", 0], ["F", 3], ["F", 4]], "tuple"]},
+                    elab={"0": ["seq", [["I", ["F", 1]], ["I", ["F", 2]]], False], "1": ["seq", [], False]}))
+    # last item equal to (all synthetic objects compare equal) but not identical with next_inner: replace, not insert
+    out.append(dict(base, root=["O", 0], unwrap={"0": ["seq", [["F", 0], ["O", 1], ["F", 1]], "tuple"]},
+                    elab={"0": ["seq", [["I", ["F", 2]], ["I", ["O", 2]]], False]}))
+    # where the progress counter is reset (frame / irreducible item) and where it is not (empty results)
+    out += [G.chain_mid_case(60, 60, mid, end) for mid in ("frame", "leaf") for end in ("frame", "leaf")]
+    out += [G.chain_mid_case(99, 99, "frame", "leaf"), G.chain_mid_case(50, 101, "leaf", "frame")]
+    out += [G.empties_case(n) for n in (98, 99, 100, 101, 105)]
     return out
 
 
@@ -100,6 +122,9 @@ def make_inputs(tier, seed):
         yield G.gen_case(rng, nf=5, no=5)
     for _ in range(n // 5):
         yield G.gen_case(rng, nf=3, no=8)
+    rng2 = random.Random(seed * 7919 + 11)
+    for _ in range(n):
+        yield G.gen_dense(rng2, nf=rng2.choice([5, 7]), no=rng2.choice([3, 4]))
     if tier == "thorough":
         yield from exhaustive(3, 2)
     else:
